@@ -265,7 +265,14 @@ fn addressed(op: &Op, q: &str) -> bool {
 /// C18: a history and its projection on each queue (metamorphic, no model involved in the oracle)
 pub fn case_projection(scratch: &Path, meta: usize, id: &str, seed: u64, len: usize, replay: Option<&Case>) -> CaseResult {
     let mut rng = Rng::new(seed);
-    let cfg = GenCfg { allow_reopen: true, big_weight: 4 + rng.below(8), max_queues: 2 + rng.below(3) as usize, ..Default::default() };
+    let mut cfg = GenCfg { allow_reopen: true, big_weight: 4 + rng.below(8), max_queues: 2 + rng.below(3) as usize, ..Default::default() };
+    // every fifth history is dominated by metadata (long-named queues, delete / re-create): the GC's
+    // position entries then straddle file boundaries while most queues are empty
+    if seed % 5 == 3 {
+        cfg.create_heavy = true;
+        cfg.churn = true;
+        cfg.max_queues = 8;
+    }
     let mut full = Runner::new(scratch.join(format!("{}-full", id)), meta);
     let mut ops: Vec<Op> = Vec::new();
     // per op: the logical view of every queue after it, and the outcome
@@ -374,6 +381,10 @@ pub fn case_names(scratch: &Path, meta: usize, id: &str, seed: u64, len: usize, 
         ("wal-00000000000000900002".into(), 2),
         ("notes.txt".into(), 0),
         ("subdir".into(), 1),
+        // 24 BYTES long, valid UTF-8, a multi-byte character straddling byte 4 / elsewhere
+        ("\u{65e5}\u{672c}\u{8a9e}\u{306e}\u{30d5}\u{30a1}\u{30a4}\u{30eb}".into(), 0),
+        ("wal\u{e9}0000000000000000001".into(), 0),
+        ("wal-\u{e9}\u{e9}\u{e9}\u{e9}\u{e9}\u{e9}\u{e9}\u{e9}\u{e9}\u{e9}".into(), 0),
     ];
     for (name, kind) in &foreign {
         let p = dir.join(name);
@@ -451,6 +462,27 @@ pub fn case_names(scratch: &Path, meta: usize, id: &str, seed: u64, len: usize, 
                 r.apply(&Op::State);
                 r.apply(&Op::Dir);
             }
+        }
+    }
+    // last phase (generated runs only): a symlink named exactly like the NEXT WAL file, pointing at a
+    // foreign file. The library must not follow it: the roll-over fails (`create_new`), calls may
+    // return I/O errors from then on - nothing is compared with the specification here - and the
+    // target stays as it is
+    if !r.dead && r.real.log.is_some() {
+        let next = r.real.cursor.0 + 1;
+        let link = dir.join(wal_name(next));
+        if !link.exists() && std::os::unix::fs::symlink(dir.join("notes.txt"), &link).is_ok() {
+            r.stats.inc("names.symlink_at_next_file");
+            let big = Op::Append { q: r.spec.queues.keys().next().cloned().unwrap_or_else(|| "q0".into()), pos: None, payloads: vec![Payload::Gen { len: 60000, seed: 3 }] };
+            for _ in 0..4 {
+                let ex = r.real.exec(&big);
+                if ex.outcome.is_panic() {
+                    r.violate("C17", format!("a call panicked with a symlink named like the next WAL file in the directory: {:?}", ex.outcome));
+                    break;
+                }
+            }
+            r.real.log = None;
+            let _ = std::fs::remove_file(&link);
         }
     }
     let after = snapshot_foreign(&dir);
